@@ -40,6 +40,9 @@ Full statement / proved / missing
                          attribute is skipped, an explicitly empty list is a declaration), or every positional attribute
                          when none is declared.  Hypothesis `hname`: a name identifies a type within a loader (`tyEq` implies
                          same type).  `C17_include_type_honoured`: the former known finding, replayed in the model.
+* `C17_equality_default`, `C17_equality_default_all` — proved: with no equality declared anywhere in the chain the compared
+                         attributes are all positional ones, i.e. (without a serialization list) every attribute of the chain
+                         that is neither constant nor derived.
 * `C17_subtype`        — proved: an ancestor (any non-empty suffix of the level list) accepts every instance;
                          `C17_subtype_strict`: a type never accepts an instance of a proper ancestor.
 * `C17_instance_closure` — proved: among the types of one loader (`defineAll [] ds = .ok env`, any number of definitions)
@@ -732,6 +735,26 @@ theorem C17_include_type_honoured :
     equals { typ := [lvA 0], values := [.int 1] } { typ := [lvA 1], values := [.int 1] } = .ok true ∧
     equals { typ := [lvA 0], values := [.int 1] } { typ := [lvA 1], values := [.int 2] } = .ok false := by
   constructor <;> rfl
+
+/-- "all non-constant attributes when no list is declared anywhere in the chain": with no `equality` declared by the type or
+    any ancestor, `Equals` compares EVERY positional attribute — and without a `serialization` list those are exactly the
+    attributes of the chain (an overriding one in place of the overridden) that are neither constant nor derived -/
+theorem C17_equality_default {t : OType} (hd : equalityDeclared t = false) :
+    eqAttrNames t = (posAttrs t).map (·.name) := by
+  simp [eqAttrNames, hd]
+
+theorem C17_equality_default_all {l : Level} {p : OType} (hs : l.serialization = none) (n : String) :
+    n ∈ (posAttrs (l :: p)).map (·.name) ↔ ∃ a ∈ eachAttribute (l :: p), a.settable = true ∧ a.name = n := by
+  simp only [posAttrs, hs, List.mem_map, List.mem_append, List.mem_filter]
+  constructor
+  · rintro ⟨a, (⟨⟨ha, hset⟩, _⟩ | ⟨⟨ha, hset⟩, _⟩), hn⟩ <;> exact ⟨a, ha, hset, hn⟩
+  · rintro ⟨a, ha, hset, hn⟩
+    refine ⟨a, ?_, hn⟩
+    by_cases ho : a.optional = true
+    · exact Or.inr ⟨⟨ha, hset⟩, ho⟩
+    · exact Or.inl ⟨⟨ha, hset⟩, by simpa using ho⟩
+
+example : equalityDeclared [lvA 0] = false ∧ eqAttrNames [lvA 0] = ["a"] := ⟨by decide, by decide⟩
 
 /-! ### an instance of a subtype is an instance of every ancestor and never the reverse -/
 
